@@ -846,6 +846,7 @@ func init() {
 			"Oracle: an independent path interpreter (current point, sub-path start, last cubic / quadratic control point with reflection only after a command of the same family, H/V, quadratic to cubic elevation, closepath returning to the sub-path start) gives the expected MoveTo / LineTo / CubicTo / ClosePath list, compared with the recorded backend operations (1e-4 relative); arcs are judged by a validity predicate: zero radius = straight line, same end point = nothing, else the drawn cubics chain from the current point to the end point, four samples of each lie on the ellipse of the SVG F.6 centre parameterisation (radii scaled up when too small) within 2%, and the swept angle matches the flags. " +
 			"shape (10%): rect (rx/ry defaulting and clamping, zero sizes), circle, ellipse, line, polyline, polygon (odd coordinate counts) against the outlines of SVG 9. viewbox (10%): viewBox x width/height x the 9 alignments x meet/slice/none: a probe line along the viewBox diagonal must land where SVG 7.8 / 7.11 place the viewBox corners. " +
 			"Reference graphs (one case in ten): 1-3 definitions (clipPath, gradient, pattern, mask, marker, symbol; a definition may reference another one or itself), 1-3 element trees referencing them (also an element and its descendant the same one, also missing ids); pointing one reference at an identical copy of its definition must give the same backend calls, except for definitions on a ring, which only have to return. " +
+			"A marker may stand at several vertices of one shape. " +
 			"Non-trivial: a path of >= 3 commands of >= 2 kinds; any drawn shape; a viewBox whose aspect ratio differs from the viewport's.",
 		ImportantLabels: []string{"kind:refs", "cmd:S", "cmd:s", "cmd:T", "cmd:t", "cmd:A", "cmd:a", "cmd:Z", "cmd:m", "cmd:Q", "cmd:H", "cmd:v", "implicit-repetition", "exponent-number", "shape:rect", "rounded", "shape:polygon", "viewbox", "mos:slice"},
 		Assumptions:     []string{"reference graphs among defs (use, gradients, patterns, markers, clip paths, masks; repeated, missing and cyclic ids) are judged by one relation: a reference pointed at an identical copy of its definition draws the same calls (definitions on a ring only have to return); termination on hostile graphs is also exercised by C01 / C07"},
